@@ -5,6 +5,7 @@ namespace OpcuaVerif.C31
 
 structure DState where
   g : Graph
+  limit : Nat := 10
 
 /-- ids: 1..30 nodes (namespace 1), 31..999 namespace-0 numeric ids, ≥ 1000 namespace-1 numeric ids
 (custom reference types), 9999 a namespace-0 id that is no reference type -/
@@ -22,6 +23,7 @@ def showStatus : Status → String
   | .badNothingToDo => "BadNothingToDo"
   | .badBrowseNameInvalid => "BadBrowseNameInvalid"
   | .badNoMatch => "BadNoMatch"
+  | .badTooManyOperations => "BadTooManyOperations"
 
 /-- `ty:inv:sub:name` -/
 def parseElem (s : String) : Option Elem :=
@@ -40,16 +42,105 @@ def parseElems (s : String) : Option (List Elem) :=
     if inner.isEmpty then some [] else (inner.splitOn ",").mapM parseElem
   | _ => none
 
+/-! ### arm tags -/
+
+def fltKind (t : Nat) : String :=
+  if t = 0 then "null" else if t = 9999 then "nonreftype" else if isStdTy t then "std" else "custom"
+
+/-- smallest search depth at which `reach` finds `t` from `base` (0 = equal), none = unreachable -/
+def reachDepth (refs : List (Nat × Nat × Nat)) (base t : Nat) : Option Nat :=
+  (List.range (refs.length + 1)).find? fun d => reach refs d base t
+
+def elemTags (g : Graph) (e : Elem) (cur : List Nat) : List String :=
+  let flt := filterOf true e
+  let cands : List (Nat × Nat × Nat) := cur.flatMap fun n =>
+    g.refs.filter fun r => if e.inverse then r.2.2 = n else r.1 = n
+  let tyTags := cands.flatMap fun r =>
+    match flt with
+    | none => ["ty.any"]
+    | some (f, sub) =>
+      if f = r.2.1 then ["ty.eq"]
+      else match reachDepth g.refs f r.2.1 with
+        | some d => if sub then [if d ≤ 1 then "ty.sub.d1" else if d = 2 then "ty.sub.d2" else "ty.sub.d3+"] else ["ty.sub-flag-off"]
+        | none => ["ty.nomatch"]
+  let passing := cands.filter fun r => passes g flt r.2.1
+  let tgtTags := passing.flatMap fun r =>
+    let t := if e.inverse then r.1 else r.2.2
+    match nodeName? g.nodes t with
+    | none => ["tgt.not-a-node"]
+    | some nm => if nm = e.name then ["tgt.name-eq"] else if nm % 50 = e.name % 50 then ["tgt.name-ns-differs"] else ["tgt.name-differs"]
+  let perSource := cur.map fun n => (candidates g flt e.inverse n).filter fun t =>
+    match nodeName? g.nodes t with | some nm => e.name = 0 ∨ nm = e.name | none => false
+  let dedupHit := perSource.any fun l => (dedup l).length < l.length
+  let next := cur.flatMap (followWith true g e)
+  [s!"flt.{fltKind e.refType}", if e.inverse then "dir.inv" else "dir.fwd", if e.sub then "sub.1" else "sub.0",
+   if cands.isEmpty then "cand.none" else "cand.some",
+   if next.isEmpty then "lvl.empty" else if next.length = 1 then "lvl.one" else "lvl.many"] ++
+  (if dedupHit then ["dedup.within-source"] else []) ++
+  (if (dedup next).length < next.length then ["dup.across-sources"] else []) ++
+  (if cur.length > 1 then ["cur.many"] else []) ++ tyTags ++ tgtTags
+
+def walkTags (g : Graph) : List Elem → List Nat → Nat → List String
+  | [], _, _ => []
+  | e :: es, cur, i =>
+    if e.name = 0 then [if i = 0 then "name-null.first" else "name-null.later-reached"]
+    else
+      let next := cur.flatMap (followWith true g e)
+      elemTags g e cur ++
+        (if next.isEmpty then
+          (if es.isEmpty then [] else ["break.before-last"]) ++
+          (if es.any (fun e' => e'.name = 0) then ["name-null.later-unreached"] else [])
+         else walkTags g es next (i + 1))
+
+def dedupStr : List String → List String
+  | [] => []
+  | x :: xs => if xs.contains x then dedupStr xs else x :: dedupStr xs
+
+def trTags (g : Graph) (start : Nat) (es : List Elem) (res : Except Status (List Nat)) : List String :=
+  let st := match res with
+    | .ok _ => "t.good" | .error .badNodeIdUnknown => "t.nodeunknown" | .error .badNothingToDo => "t.nothingtodo-empty"
+    | .error .badBrowseNameInvalid => "t.browsenameinvalid" | .error .badNoMatch => "t.nomatch" | .error .good => "t.good"
+    | .error .badTooManyOperations => "t.toomany"
+  let len := if es.length = 0 then "len.0" else if es.length = 1 then "len.1" else if es.length = 2 then "len.2"
+    else if es.length = 3 then "len.3" else "len.4+"
+  dedupStr ([st, len] ++ (if (nodeName? g.nodes start).isSome then walkTags g es [start] 0 else []))
+
+def withTags (res : String) (tags : List String) : String :=
+  if tags.isEmpty then res else res ++ " @@ " ++ ",".intercalate tags
+
 def dstep (s : DState) (toks : List String) : DState × String :=
   match toks with
-  | ["reset"] => ({ g := ⟨[], []⟩ }, "ok")
+  | ["reset"] => ({ g := ⟨[], []⟩, limit := 10 }, "ok")
+  | ["limit", l] =>
+    -- operational limit max_nodes_per_translate_browse_paths_to_node_ids (10 after reset)
+    match l.toNat? with
+    | some l => if l < 4294967296 then ({ s with limit := l }, "ok") else (s, "bad-op")
+    | none => (s, "bad-op")
+  | ["trn", k, start, es] =>
+    -- one request with k copies of the same browse path
+    match k.toNat?, start.toNat? with
+    | some k, some start =>
+      if k > 40 ∨ start ≥ 4294967296 then (s, "bad-op") else
+      let es? : Option (Option (List Elem)) := if es = "-" then some none else (parseElems es).map some
+      match es? with
+      | none => (s, "bad-op")
+      | some es =>
+        let szTag := if k = 0 then "req.empty" else if k < s.limit then "req.lt-limit" else if k = s.limit then "req.eq-limit" else "req.gt-limit"
+        match translateRequest s.limit s.g (List.replicate k (start, es)) with
+        | .fault st => (s, s!"err {showStatus st} @@ {szTag}")
+        | .results rs =>
+          let shown := rs.map fun r => match r with
+            | .ok ns => "Good " ++ natList (sortNat ns)
+            | .error st => showStatus st
+          (s, s!"ok x{k} " ++ (shown.head?.getD "") ++ s!" @@ {szTag}")
+    | _, _ => (s, "bad-op")
   | ["node", id, nm] =>
     match id.toNat?, nm.toNat? with
     | some id, some nm =>
       if id = 0 ∨ id > 30 ∨ nm = 0 ∨ nm ≥ 100 then (s, "bad-op") else
       match nodeName? s.g.nodes id with
       | some _ => (s, "ok 0")
-      | none => ({ g := { s.g with nodes := s.g.nodes ++ [(id, nm)] } }, "ok 1")
+      | none => ({ s with g := { s.g with nodes := s.g.nodes ++ [(id, nm)] } }, "ok 1")
     | _, _ => (s, "bad-op")
   | ["ref", a, b, ty] =>
     match a.toNat?, b.toNat?, ty.toNat? with
@@ -57,20 +148,21 @@ def dstep (s : DState) (toks : List String) : DState × String :=
       -- no self references (they panic: C33); HasSubtype edges only upwards in id order (acyclic)
       if !idOk a ∨ !idOk b ∨ !idOk ty ∨ a = b ∨ (ty = hasSubtype ∧ b ≤ a) then (s, "bad-op") else
       if s.g.refs.contains (a, ty, b) then (s, "ok") else
-      ({ g := { s.g with refs := s.g.refs ++ [(a, ty, b)] } }, "ok")
+      ({ s with g := { s.g with refs := s.g.refs ++ [(a, ty, b)] } }, "ok")
     | _, _, _ => (s, "bad-op")
   | ["tr", start, es] =>
     match start.toNat? with
     | some start =>
       if start ≥ 4294967296 then (s, "bad-op") else
+      if s.limit = 0 then (s, "err BadTooManyOperations @@ req.gt-limit") else
       if es = "-" then
         -- no elements array at all: the service answers BadNothingToDo without looking at the node
-        (s, "ok BadNothingToDo")
+        (s, "ok BadNothingToDo @@ t.nothingtodo-noelems")
       else match parseElems es with
         | some es =>
           (match translate s.g start es with
-           | .ok ns => (s, "ok Good " ++ natList (sortNat ns))
-           | .error st => (s, "ok " ++ showStatus st))
+           | .ok ns => (s, withTags ("ok Good " ++ natList (sortNat ns)) (trTags s.g start es (.ok ns)))
+           | .error st => (s, withTags ("ok " ++ showStatus st) (trTags s.g start es (.error st))))
         | none => (s, "bad-op")
     | none => (s, "bad-op")
   | _ => (s, "bad-op")
